@@ -37,6 +37,14 @@ def one(req, **kw):
     return batch([req], **kw)[0]
 
 
+def parallel(reqs, workers=8, **kw):
+    """run each request in its own helper process, `workers` at a time (thorough tier: the bounded stand-ins are
+    embarrassingly parallel over seeds)"""
+    from concurrent.futures import ThreadPoolExecutor
+    with ThreadPoolExecutor(max_workers=workers) as ex:
+        return list(ex.map(lambda r: one(r, **kw), reqs))
+
+
 def call(target, args=(), kwargs=None, patch_proba=None):
     return one({"cmd": "call", "target": target, "args": list(args), "kwargs": kwargs or {}, "patch_proba": patch_proba})
 
